@@ -111,10 +111,12 @@ def native_replay(gosmt, mpath, m, entry, replay_path, timeout=600):
             return "error", "native replay timed out"
         out = r.stdout + r.stderr
         fails = re.findall(r"^VERIF-ASSERT-FAILED: (.*)$", out, re.M)
+        if fails:
+            # assertions that failed before a later assumption of the harness was violated count: the
+            # recorded model only fixes the values drawn up to the failing assertion
+            return "assert:" + "|".join(fails), out
         if "VERIF-ASSUME-VIOLATED" in out:
             return "assume-violated", out
-        if fails:
-            return "assert:" + "|".join(fails), out
         if "VERIF-PANIC:" in out or re.search(r"^panic: ", out, re.M) or "fatal error:" in out:
             return "panic", out
         if "VERIF-END" in out and r.returncode == 0:
